@@ -17,24 +17,14 @@
 #include <map>
 #include <set>
 #include <limits>
-#include <new>
 #include "vf.hpp"
 #include "mk.hpp"
 #include "vsched.hpp"
 #include "C03_fam.hpp"
 
-// Every block obtained through operator new is zero-filled.  ruge_stuben::connect (coarsening/ruge_stuben.hpp:281,
-// 293-296) leaves S.val unwritten for rows without a negative off-diagonal entry and reads it afterwards
-// (lines 305-306, 313); such rows appear on coarse levels of ordinary inputs (two decoupled pairs: the coarse
-// matrix is diagonal) and the garbage makes cfsplit write out of bounds.  That is a memory-safety defect outside
-// this property; with the fill the read sees "no strong connection" (the evident intent), the run is deterministic,
-// and the affected hierarchies are counted (counter rs_level_with_row_without_negative_offdiag).
-void *operator new(std::size_t n) { void *p = std::calloc(1, n ? n : 1); if (!p) throw std::bad_alloc(); return p; }
-void *operator new[](std::size_t n) { void *p = std::calloc(1, n ? n : 1); if (!p) throw std::bad_alloc(); return p; }
-void operator delete(void *p) noexcept { std::free(p); }
-void operator delete[](void *p) noexcept { std::free(p); }
-void operator delete(void *p, std::size_t) noexcept { std::free(p); }
-void operator delete[](void *p, std::size_t) noexcept { std::free(p); }
+// Note: hierarchies in which some level has a row without a negative off-diagonal entry are counted
+// (rs_level_with_row_without_negative_offdiag): ruge_stuben::connect used to read uninitialised strength flags for
+// such rows (repaired in /repo by 4fe3727); they are ordinary inputs here (two decoupled pairs give a diagonal coarse matrix).
 
 typedef amgcl::backend::builtin<double> Backend;
 typedef Backend::matrix Crs;
@@ -620,9 +610,7 @@ static void run_case(const std::string &key, const MatDesc &md, const Cfg &cfg, 
 // enumeration
 // ---------------------------------------------------------------------------------------------
 static bool usable(const MatDesc &md, const Coars &c) {
-    // ruge_stuben::connect leaves S.val unwritten for rows without a negative off-diagonal entry (reads of
-    // uninitialised memory follow); those inputs are outside this property and would make the case nondeterministic
-    (void)md; (void)c;
+    (void)md; (void)c;     // every (matrix, coarsening) pair is usable
     return true;
 }
 
